@@ -52,8 +52,17 @@ def derives_only_from(prov, op, pred):
 
 
 def has_const_str(prov, op, text):
+    """does the constant `text` flow into `op`? Followed through the returns of local helper
+    functions and, for a helper's parameters and a closure's captures, through the call sites."""
+    from ..interproc import expand
     ip = Prov(prov.body, prov.extra, prov.stop_at, interproc=True)
-    for o in ip.origins_op(op):
+    org = ip.origins_op(op)
+    if any(o[0] in ("param", "upvar") for o in org):
+        try:
+            org = expand(prov.body.facts, prov.body, org, prov.stop_at)
+        except RecursionError:
+            pass
+    for o in org:
         if o[0] == "const":
             d = dict(o[1])
             if d.get("str") == text:
